@@ -1,6 +1,7 @@
 package checks
 
 import (
+	"bytes"
 	"encoding/hex"
 	"fmt"
 	"os"
@@ -272,6 +273,90 @@ func checkTransImage(rp TransReplay) []*Violation {
 		if v != nil {
 			out = append(out, v)
 		}
+	}
+	if len(out) > 0 {
+		return out
+	}
+	// Third path: the store goes on being used with its ORIGINAL bit size (a
+	// key updated, one removed, one added), and the re-bucketing is tried
+	// again later: what the interrupted attempt left behind must not leak
+	// into the result.
+	dir := newScratch("tr")
+	defer os.RemoveAll(dir)
+	unhexImage(rp.Image).writeTo(dir)
+	v := guard(-1, "translation-retry", func() *Violation {
+		s, err := openStore(dir, rp.Cfg)
+		if err != nil {
+			return nil
+		}
+		model := map[string][]byte{}
+		for _, ks := range rp.Keys {
+			if want, present := rp.Model[hex.EncodeToString(ks.Digest)]; present {
+				b, _ := hex.DecodeString(want)
+				got, found, err := s.Get(ks.Encode(rp.Cfg.Primary, false))
+				if err != nil || !found || !bytes.Equal(got, b) {
+					s.Close()
+					return nil // judged by the first two paths
+				}
+				model[string(ks.Digest)] = b
+			}
+		}
+		updated, removed, added := false, false, false
+		for i, ks := range rp.Keys {
+			key := ks.Encode(rp.Cfg.Primary, false)
+			_, present := model[string(ks.Digest)]
+			switch {
+			case present && !updated && !rp.Cfg.Immutable:
+				val := []byte(fmt.Sprintf("retry-update-%d", i))
+				if err := s.Put(key, val); err == nil {
+					model[string(ks.Digest)] = val
+				}
+				updated = true
+			case present && !removed:
+				if ok, err := s.Remove(key); err == nil && ok {
+					delete(model, string(ks.Digest))
+				}
+				removed = true
+			case !present && !added:
+				val := []byte(fmt.Sprintf("retry-add-%d", i))
+				if err := s.Put(key, val); err == nil {
+					model[string(ks.Digest)] = val
+				}
+				added = true
+			}
+		}
+		if err := s.Close(); err != nil {
+			return nil
+		}
+		cfg := rp.Cfg
+		cfg.Bits = rp.NewBits
+		s2, err := openStore(dir, cfg)
+		if err != nil {
+			return nil // refusing to open is allowed
+		}
+		defer s2.Close()
+		for i, ks := range rp.Keys {
+			want, present := model[string(ks.Digest)]
+			got, found, err := s2.Get(ks.Encode(cfg.Primary, false))
+			sym := ""
+			switch {
+			case err != nil:
+				sym = "error"
+			case present && !found:
+				sym = "key-missing"
+			case !present && found:
+				sym = "removed-key-back"
+			case present && !bytes.Equal(got, want):
+				sym = "stale-value"
+			}
+			if sym != "" {
+				return viol("retried-translation-wrong-contents|"+site+"|"+sym, -1, "a re-bucketing to %d bits was interrupted, the store was then used with its original %d bits (one key updated, one removed, one added; all reads right) and closed, and the re-bucketing was tried again: key %d reads (%s, found=%v, err=%v), expected (%s, present=%v)", rp.NewBits, rp.Cfg.Bits, i, shortBytes(got), found, err, shortBytes(want), present)
+			}
+		}
+		return nil
+	})
+	if v != nil {
+		out = append(out, v)
 	}
 	return out
 }
